@@ -44,6 +44,55 @@ def changed(before, after):
     return out
 
 
+CLI_OF_FLAG = {"clean_state": ["--clean-state"], "clear_cache": ["--clear-cache"], "use_cache": ["--use-cache=true"], "checksum": ["--checksum"],
+               "checksum_db": ["--checksum-db=true"], "clear_checksum_db": ["--clear-checksum-db"], "prune_checksum_db": ["--prune-checksum-db"],
+               "resume": ["--resume=true"], "verify_only": ["--verify-only"], "dry_run": ["--dry-run"]}
+
+
+def stateguard_search(sc, must_be_off):
+    """the search for a failing input behind C08_dry_run_touches_no_state_file / C15_verify_only_clears_no_state_file: for every translated
+    guard (coq/gen/stateguards.json, written by py/gen_stateguards.py from the current source) that can hold although `must_be_off`
+    (dry_run / verify_only) is set, build the command line from the guard's own flags, plant the state files and let the binary show the
+    modification.  On a tree where the theorems hold no guard qualifies and nothing is run."""
+    import json as _json, gen_stateguards
+    sg = gen_stateguards.generate()
+    out = []
+    for name, g in sg["guards"].items():
+        if must_be_off == "verify_only" and not name.startswith("main_"):
+            continue
+        asg = {f: False for f in sg["flags"]}
+        asg[must_be_off] = True
+        for dis in g["conj"]:
+            if not any((not asg[f]) if neg else asg[f] for neg, f in dis):
+                free = [(n_, f_) for n_, f_ in dis if f_ != must_be_off]
+                if free:
+                    asg[free[0][1]] = not free[0][0]
+        if not asg[must_be_off] or not gen_stateguards.holds(g, asg):
+            continue
+        # the guard no longer excludes the mode: a concrete world
+        base = os.path.join(sc.dir, "sg-" + name)
+        src, dst = base + "/src", base + "/dst"
+        os.makedirs(src); os.makedirs(dst)
+        open(src + "/a.txt", "w").write("a"); open(src + "/b.txt", "w").write("bb")
+        cli = [x for f, on in sorted(asg.items()) if on for x in CLI_OF_FLAG.get(f, [])]
+        prior = [x for x in cli if x not in ("--dry-run", "--verify-only", "--clean-state", "--clear-cache", "--clear-checksum-db", "--prune-checksum-db")]
+        world.run_sy([src, dst, "-q"] + prior + (["--checksum", "--checksum-db=true"] if "db" in name else []) + (["--use-cache=true"] if "cache" in name else []), sc)
+        open(src + "/a.txt", "w").write("a, edited after the earlier run")
+        with open(dst + "/.sy-state.json", "w") as fh:
+            fh.write("not json at all" if "invalid" in name else '{"version":1}')
+        if not os.path.exists(dst + "/.sy-dir-cache.json"):
+            open(dst + "/.sy-dir-cache.json", "w").write('{"version":2,"directories":{},"files":{}}')
+        world.sync_fs()
+        before = world.snapshot(dst)
+        rr = world.run_sy([src, dst, "-q"] + cli + (["--checksum", "--checksum-db=true"] if "db" in name and "--checksum" not in cli else []), sc)
+        ch = [p for p in changed(before, world.snapshot(dst))]
+        out.append({"site": name, "source_line": "%s:%d" % (g["file"], g["line"]), "guard_holds_under": {k: v for k, v in asg.items() if v}, "cli": cli, "modified": ch[:6],
+                    "why": ("the guard translated from %s:%d (%s) can hold with %s set; run with %s: %s" % (g["file"], g["line"], g["what"], must_be_off, " ".join(cli),
+                                                                                                      ("modified %r" % ch[:4]) if ch else "no modification observed on this world"))})
+        shutil.rmtree(base, ignore_errors=True)
+    return out
+
+
 def run(tier, seed):
     res = vlib.Result(PID, tier, seed)
     pr = proof_phase(res, PID)
@@ -185,10 +234,20 @@ def run(tier, seed):
             res.known.append("%s %s [%d cases this run, e.g. world %d]" % (f["id"], f["what"], len(h), h[0][0]))
         else:
             res.notes.append("listed finding %s was not reproduced by this run" % f["id"])
+    # the translated state-file guards: every site found, and -- when one of them can hold under --dry-run -- the world that shows it
+    import gen_stateguards
+    with vlib.Scratch() as sc3:
+        sg_hits = stateguard_search(sc3, "dry_run")
+    res.cov["state_file_sites_translated_from_source"] = sorted(gen_stateguards.generate()["guards"])
+    res.cov["trusted_base"] = res.cov["trusted_base"] + ["py/gen_stateguards.py: the translator of the state-file sites (brace matching over comment- and string-stripped source; conjuncts that are not flags are dropped, which only weakens a guard); the list of mutating calls it looks for (SITES) is hand-written: a NEW call that touches a state file has to be added there -- the snapshot worlds are the net for those"]
+    for h_ in sg_hits:
+        if h_["modified"]:
+            viol.append({"world": "state-guard-" + h_["site"], "failure": {"why": h_["why"], "klass": None}, "cli": h_["cli"]})
     for v in viol[:3]:
         res.violation("world", v)
     if not viol and (diffs or pr["broken"]):
         what = list(pr["broken"])
+        what += [h_["why"] for h_ in sg_hits]
         if diffs:
             what.append("dry run differs from Engine.run on %d worlds; first: %s" % (len(diffs), json.dumps(diffs[0])[:1500]))
         res.violation("unproved", {"no_failing_input_found": True, "what_no_longer_checks": what, "first_case": diffs[0] if diffs else None}, no_input=True)
